@@ -132,9 +132,17 @@ package dotgit
 // checkReferenceAndTruncate returns nil only if no old value was given or the
 // stored value (loose file, else packed refs) equals the expected one: the
 // same kind of reference, the same id, and for a symbolic reference (type 2)
-// the same target (two symbolic references both have the zero id).
+// the same target (two symbolic references both have the zero id). It works on
+// the open file it is given: the name of the expected old value is never
+// validated by SetRef, so no path may be built from it (C14 gate, call-site
+// obligations on every filesystem call by name).
 //gvc:func (*DotGit).checkReferenceAndTruncate
-//gvc:  props C16
+//gvc:  props C14 C16
+//gvc:  sink Remove requires [C14] safe: spec_refsafe(strid(arg0))
+//gvc:  sink Rename requires [C14] safe: spec_refsafe(strid(arg0)) && spec_refsafe(strid(arg1))
+//gvc:  sink Create requires [C14] safe: spec_refsafe(strid(arg0))
+//gvc:  sink OpenFile requires [C14] safe: spec_refsafe(strid(arg0))
+//gvc:  sink Open requires [C14] safe: spec_refsafe(strid(arg0))
 //gvc:  theory int
 //gvc:  opt coarse
 //gvc:  opt frame args
